@@ -103,13 +103,24 @@ def multi_abstract(rng, palette, dense=False):
         if not any(ts[i] in R and ts[j] in R and abs(xs[i] - xs[j]) - R[ts[i]] - R[ts[j]] in (0, extra)
                    for i in range(n) for j in range(i + 1, n)):
             break
-    rs = [rng.choice((1, 2)) for _ in range(n)]
+    three = rng.random() < 0.3       # three residues, the middle one in another chain (chains A, B, A: clashes
+    rs = [rng.choice((1, 2, 3) if three else (1, 2)) for _ in range(n)]     # between the chains in both orders)
     rs[rng.randrange(n)] = 1
     if 2 not in rs:
         rs[rs.index(1) - 1] = 2
+    if three and 3 not in rs:
+        cand = [i for i in range(n) if rs.count(rs[i]) > 1]
+        if cand:
+            rs[rng.choice(cand)] = 3
+        else:
+            three = False
     test = [{"t": ts[i], "k": rng.choice((0, 0, 1, 2)), "r": rs[i], "occ": rng.choice(palette["occs"]), "x": xs[i]}
             for i in range(n)]
     rng.shuffle(test)
+    if three and 3 in rs:
+        return {"fam": "multi", "axis": rng.randrange(3), "test": test,
+                "res": [{"chain": "A", "nuc": rng.random() < 0.6}, {"chain": "B", "nuc": rng.random() < 0.6},
+                        {"chain": "A", "nuc": rng.random() < 0.6}]}
     return {"fam": "multi", "axis": rng.randrange(3), "test": test,
             "res": [{"chain": "A", "nuc": rng.random() < 0.6},
                     {"chain": rng.choice("AB"), "nuc": rng.random() < 0.6, "ins": rng.random() < 0.3,
@@ -129,7 +140,7 @@ BALLAST_START, BALLAST_STEP = 2400, 400     # centi-A: far from the test atoms a
 def materialise(ab, shuffle_seed=0):
     """abstract palette configuration -> concrete structure description (all coordinates are
     integers in 0.01 A on one line, carried along axis ab['axis'])."""
-    res = [{"chain": r["chain"], "number": k + 1, "icode": None, "resname": ("G", "C")[k] if r["nuc"] else "LIG",
+    res = [{"chain": r["chain"], "number": k + 1, "icode": None, "resname": ("G", "C", "U", "A")[k] if r["nuc"] else "LIG",
             "want_nuc": r["nuc"]} for k, r in enumerate(ab["res"])]
     if len(res) == 2 and ab["res"][1].get("lig") and res[1]["want_nuc"]:
         res[1]["lig"], res[1]["resname"] = True, "2BA"          # a nucleotide ligand (non-polymer entity in mmCIF)
